@@ -399,14 +399,19 @@ def run(ctx):
             how = rng.choice(["aligned", "aligned", "free", "free", "zero", "subsample", "past_eof", "whole", "decimal", "cross", "cross", "cross"])
             if how == "cross":
                 # every kind of start with every kind of end (a start in the first frame with an end past the file, ...)
-                sk = rng.choice(["zero", "first_frame", "aligned", "free", "last_frame"])
+                sk = rng.choice(["zero", "first_frame", "aligned", "free", "last_frame", "at_eof", "just_past_eof", "far_past_eof"])
                 ek = rng.choice(["same", "subsample", "aligned", "free", "total", "just_past", "far_past"])
                 a = rng.randrange(0, n_frames)
                 start = {"zero": 0.0, "first_frame": rng.uniform(0, 1 / real_sr) * 0.99, "aligned": a / real_sr, "free": rng.uniform(0, total),
-                         "last_frame": (n_frames - 1) / real_sr}[sk]
+                         "last_frame": (n_frames - 1) / real_sr,
+                         # a clip that STARTS at or beyond the end of the file (the recording's metadata says it is longer
+                         # than the file is): nothing to read, everything zero-filled
+                         "at_eof": total, "just_past_eof": total + rng.uniform(0.1, 2.5) / real_sr, "far_past_eof": total + rng.choice([0.5, 3.0, total])}[sk]
                 end = {"same": start, "subsample": start + rng.uniform(0, 1 / real_sr) * 0.9, "aligned": rng.randrange(a, n_frames + 1) / real_sr,
                        "free": start + rng.uniform(0, max(total - start, 0)), "total": total, "just_past": total + rng.uniform(0.2, 3) / real_sr,
                        "far_past": total + rng.choice([0.25, 0.5, total / 2])}[ek]
+                if sk.endswith("eof"):
+                    end = start + rng.choice([0.0, rng.uniform(0, 1 / real_sr), 0.25, rng.randrange(1, 4000) / real_sr])
                 end = max(end, start)
                 how = f"cross:{sk}:{ek}"
             elif how == "aligned":
